@@ -11,7 +11,7 @@ constraint form as list element / field / alternative, lists in lists with diffe
 each level, enumerations with 1..40 values and markers anywhere. The shapes matter for changes on the
 compiler side (descriptor constants emitted by the code generator), which the runtime cannot see.
 
-usage: tools/gen_zoo.py <letter> <python-seed> <count>       e.g. tools/gen_zoo.py a 20260926 140
+usage: tools/gen_zoo.py <letter> <python-seed> <count> [proto]      e.g. tools/gen_zoo.py a 20260926 45
 """
 import random, sys
 
@@ -34,8 +34,15 @@ class G:
         # 65536 elements per fragment header octet: inherent to the schema, see DESIGN 4 on @zeroamp)
         self.info = {"BOOLEAN": (False, False), "NULL": (True, False)}
 
-    def note(self, text, zero, amp=False):
+        # text -> the type is a list / contains a list directly inside a list (protobuf finding D11: reading
+        # such a value back never terminates, so these types are flagged @nestedlist)
+        self.islist = {}
+        self.nested = {}
+
+    def note(self, text, zero, amp=False, islist=False, nested=False):
         self.info[text] = (zero, amp)
+        self.islist[text] = islist
+        self.nested[text] = nested
         return text
 
     def fresh(self):
@@ -143,7 +150,8 @@ class G:
         elem, _ = self.field_type(depth + 1, in_list=True, no_inline=no_inline)
         fixed, large = self.size_info(s)
         ez, ea = self.info[elem]
-        return self.note(f"{head} {s} OF {elem}".replace("  ", " "), fixed == 0 or (fixed is not None and ez), ea or (ez and large))
+        return self.note(f"{head} {s} OF {elem}".replace("  ", " "), fixed == 0 or (fixed is not None and ez), ea or (ez and large),
+                         islist=True, nested=self.islist.get(elem, False) or self.nested.get(elem, False))
 
     def field_type(self, depth, in_list=False, no_inline=False):
         """-> (text, default literal or None)"""
@@ -178,12 +186,13 @@ class G:
         tagged = head == "SET" and r.randrange(2) == 0
         tags = r.sample(range(0, 40), n)
         parts = []
-        zero, amp = marker is None, False
+        zero, amp, nested = marker is None, False, False
         for i in range(n):
             if marker == i:
                 parts.append("...")
             t, dflt = self.field_type(depth)
             zero, amp = zero and self.info[t][0], amp or self.info[t][1]
+            nested = nested or self.nested.get(t, False)
             after = marker is not None and i >= marker
             k = r.randrange(10)
             if after:
@@ -198,23 +207,24 @@ class G:
             parts.append(f"f{i} {tag}{t}{suffix}")
         if marker == n:
             parts.append("...")
-        return self.note(head + " { " + ", ".join(parts) + " }", zero, amp)
+        return self.note(head + " { " + ", ".join(parts) + " }", zero, amp, nested=nested)
 
     def choice(self, depth):
         r = self.r
         n = r.choice([1, 2, 2, 3, 4, 5, 9, 17]) if depth == 0 else r.choice([1, 2, 3])
         marker = None if r.randrange(2) == 0 else r.randrange(1, n + 1)
         parts = []
-        zero, amp = marker is None and n == 1, False
+        zero, amp, nested = marker is None and n == 1, False, False
         for i in range(n):
             if marker == i:
                 parts.append("...")
             t, _ = self.field_type(depth)
             zero, amp = zero and self.info[t][0], amp or self.info[t][1]
+            nested = nested or self.nested.get(t, False)
             parts.append(f"a{i} {t}")
         if marker == n:
             parts.append("...")
-        return self.note("CHOICE { " + ", ".join(parts) + " }", zero, amp)
+        return self.note("CHOICE { " + ", ".join(parts) + " }", zero, amp, nested=nested)
 
     def top(self):
         r = self.r
@@ -234,7 +244,10 @@ class G:
             body, kind = self.prim()[0], "prim"
         self.named.append((name, kind))
         self.info[name] = self.info[body]
-        self.lines.append(f"  {name} ::= {body}" + ("      -- @zeroamp" if self.info[body][1] else ""))
+        self.islist[name] = self.islist.get(body, False)
+        self.nested[name] = self.nested.get(body, False)
+        flags = (["@zeroamp"] if self.info[body][1] else []) + (["@nestedlist"] if self.nested[name] else [])
+        self.lines.append(f"  {name} ::= {body}" + ("      -- " + " ".join(flags) if flags else ""))
 
 
 def main():
@@ -244,6 +257,8 @@ def main():
         g.top()
     module = "ZooRand" + letter.upper()
     text = f"-- generated by tools/gen_zoo.py {letter} {seed} {count} (do not edit; generate a new file instead)\n"
+    if len(sys.argv) > 4 and sys.argv[4] == "proto":
+        text += "-- @file: proto\n"
     text += f"{module} DEFINITIONS AUTOMATIC TAGS ::= BEGIN\n" + "\n".join(g.lines) + "\nEND\n"
     import os
     path = os.path.join(os.path.dirname(os.path.dirname(os.path.abspath(__file__))), "sim", "zoo", f"rand_{letter}.asn1")
